@@ -358,13 +358,22 @@ func (c *nodeComparer) Walk(from, to *value) {
 
 	case reflect.Slice:
 		results := make([][]diff.Result, from.Len())
+		seen := make([][]bool, from.Len())
 		for i := range results {
 			results[i] = make([]diff.Result, to.Len())
+			seen[i] = make([]bool, to.Len())
 		}
 
 		es := diff.Difference(from.Len(), to.Len(), func(i, j int) diff.Result {
+			// Difference may ask about the same pair more than once.
+			// Comparing it again at every level of nesting takes
+			// time exponential in the depth of the tree.
+			if seen[i][j] {
+				return results[i][j]
+			}
 			result := compareNodes(from.Children[i], to.Children[j])
 			results[i][j] = result
+			seen[i][j] = true
 			return result
 		})
 
